@@ -885,3 +885,45 @@ pub fn good_guard_alias(total: u16, reps: &[u8]) -> u32 {
     }
     left
 }
+
+// a work list that is only drained
+pub fn loopgood_drain(mut work: Vec<u32>, out: &mut Vec<u32>) -> u32 {
+    let mut s = 0u32;
+    while let Some(x) = work.pop() {
+        s = s.wrapping_add(x);
+        out.push(x);
+    }
+    s
+}
+
+// ---- range `contains` guards -------------------------------------------------------------------------------------
+
+pub fn good_contains_guard(v: &[u8; 8], n: i32) -> u8 {
+    if !(0..=6).contains(&n) {
+        return 0;
+    }
+    v[n as usize]
+}
+
+pub fn good_contains_half_open(v: &[u8; 8], n: usize) -> u8 {
+    if (0..8).contains(&n) {
+        v[n]
+    } else {
+        0
+    }
+}
+
+pub fn bad_contains_too_wide(v: &[u8; 8], n: i32) -> u8 {
+    if !(0..=8).contains(&n) {
+        return 0;
+    }
+    v[n as usize]
+}
+
+pub fn bad_contains_other_variable(v: &[u8; 8], n: usize, m: usize) -> u8 {
+    if (0..8).contains(&m) {
+        v[n]
+    } else {
+        0
+    }
+}
